@@ -111,7 +111,9 @@ class Universe:
                         fs.makedirs("user", d)
                     fs.write("user", path, text)
                 elif kind == "raw_remove":
-                    if os.path.lexists(op[1]):
+                    if os.path.isdir(op[1]) and not os.path.islink(op[1]):
+                        fs.rmtree("user", op[1])
+                    elif os.path.lexists(op[1]):
                         fs.remove("user", op[1])
                 elif kind == "rmtree":
                     if os.path.isdir(op[1]):
